@@ -418,6 +418,17 @@ pub fn run(ctx: &mut Ctx) {
         }
         variants.push((OwnedTerm::Reference(r.clone()), OwnedTerm::Reference(ExternalReference::new(r.node.clone(), r.creation, ids2)), "ref.ids"));
         variants.push((OwnedTerm::Reference(r.clone()), OwnedTerm::Reference(ExternalReference::new(r.node.clone(), r.creation ^ 1, r.ids.clone())), "ref.creation"));
+        // the same words followed / preceded by a zero word, and one word fewer: different identifiers (another word count)
+        let mut longer = r.ids.clone();
+        longer.push(0);
+        variants.push((OwnedTerm::Reference(r.clone()), OwnedTerm::Reference(ExternalReference::new(r.node.clone(), r.creation, longer)), "ref.ids+zero-word"));
+        let mut shifted = vec![0u32];
+        shifted.extend_from_slice(&r.ids);
+        variants.push((OwnedTerm::Reference(r.clone()), OwnedTerm::Reference(ExternalReference::new(r.node.clone(), r.creation, shifted)), "ref.zero-word+ids"));
+        if r.ids.len() > 1 {
+            let shorter = r.ids[..r.ids.len() - 1].to_vec();
+            variants.push((OwnedTerm::Reference(r.clone()), OwnedTerm::Reference(ExternalReference::new(r.node.clone(), r.creation, shorter)), "ref.ids-last-word"));
+        }
         for (a, b, what) in variants {
             ctx.count("one_field_pairs");
             let (ba, bb) = (BorrowedTerm::from(&a), BorrowedTerm::from(&b));
